@@ -351,7 +351,9 @@ _TRANSPARENT = ("core::clone::Clone::clone", "core::convert::Into::into", "core:
                 # success-payload preserving adapters
                 "core::option::Option::ok_or", "core::option::Option::ok_or_else",
                 "core::result::Result::map_err", "core::result::Result::ok",
-                "core::option::Option::copied", "core::option::Option::cloned")
+                "core::option::Option::copied", "core::option::Option::cloned",
+                # observers that hand the value back unchanged
+                "core::result::Result::inspect_err", "core::result::Result::inspect", "core::option::Option::inspect")
 
 _THIN_CACHE = {}
 
@@ -655,6 +657,11 @@ def field_tests(f, field, family="option"):
             if s["k"] == "a" and s["lhs"]["l"] == l and s["rv"]["k"] == "discr":
                 pl = resolve_place(f, s["rv"]["p"])
                 names = [e[2] for e in pl.get("p", []) if e[0] == "f"]
+                if not names and not [e for e in pl.get("p", []) if e[0] != "deref"]:
+                    # `self.field.as_mut()` / `.as_ref()` ...: same discriminant as the field itself
+                    dc = def_call(f, pl["l"])
+                    if dc is not None and call_matches(dc[1], r"^core::(option::Option|result::Result)::(as_mut|as_ref|as_deref|as_deref_mut|as_pin_mut|as_pin_ref)$") and dc[1]["args"] and recv_field(f, dc[1]["args"][0]) == field:
+                        names = [field]
                 if names and names[-1] == field:
                     su, fa = switch_edges(f, b, _SUCCESS_DISCR[family])
                     out.append(Test(b, su, fa, 0, "discr:" + family, False, l))
@@ -691,17 +698,20 @@ def presence_tests(f, field):
     return out, sites
 
 
-def emptiness_tests(f, field):
+def emptiness_tests(f, field, recv=None):
     """Tests of `self.<field>` being empty, in any of the accepted idioms: `.is_empty()`,
     `.len() == 0`, `.len() != 0`, `.len() > 0`, `0 < .len()`, `.len() < 1` ...; success
     edges = the collection is empty.  Returns (tests, sites)."""
+    # `recv` (optional): predicate on the receiver operand, for a collection that is a local /
+    # parameter rather than a field of self
+    is_recv = recv if recv is not None else (lambda a: recv_field(f, a) == field)
     out, sites = [], []
     for b, t in f.calls():
-        if call_matches(t, r"::is_empty$") and t["args"] and recv_field(f, t["args"][0]) == field:
+        if call_matches(t, r"::is_empty$") and t["args"] and is_recv(t["args"][0]):
             ts, _ = call_result_tests(f, b, family="bool")
             out += ts
             sites.append(b)
-    lens = {t["dest"]["l"]: b for b, t in f.calls() if call_matches(t, r"::len$") and t["args"] and recv_field(f, t["args"][0]) == field and not t["dest"].get("p")}
+    lens = {t["dest"]["l"]: b for b, t in f.calls() if call_matches(t, r"::len$") and t["args"] and is_recv(t["args"][0]) and not t["dest"].get("p")}
     if lens:
         du = defuse(f)
 
